@@ -147,8 +147,9 @@ def check_reader(reader, cols, ref, case, acc):
     if index != list(range(n)) and not v:
         bad("read-index" if chunk is None else "index-not-continuing",
             "row index is not 0..n-1 across the chunks", list(range(n)), index)
-    if chunk is not None and n > 0 and len(chunks) != T.n_chunks(n, chunk) and not v:
-        bad("chunk-count", "number of chunks is not ceil(n/chunk)", T.n_chunks(n, chunk), [len(c) for c in chunks])
+    # the number of chunks is not part of the statement (only their concatenation is): counted, never flagged
+    if chunk is not None and n > 0 and len(chunks) != T.n_chunks(n, chunk):
+        acc.count("chunk_count_not_ceil")
     return ([len(c) for c in chunks], got, index)
 
 
